@@ -51,6 +51,9 @@ def configs(ctx: Ctx) -> list[dict[str, Any]]:
             (2, progs2[2], TTL + 1), (1, progs2[1], None), (2, progs2[4], TTL - 1),
         ]:
             out.append({"cap": cap, "progs": [list(p) for p in progs], "adv": adv, "bound": 2, "env_cost": 1})
+        # TWO clock advances (a short one that can fall between a thread's clock reading and its lock acquisition, and one
+        # that carries the clock to the end of the earlier reading's window), free of charge, around a replay of x
+        out.append({"cap": 3, "progs": [["y"], ["x", "x"]], "adv": [1.0, TTL - 1], "bound": 2, "env_cost": 0})
         return out
     def add(cap: int, progs: Any, adv: Any, bound: int, env_cost: int) -> None:
         out.append({"cap": cap, "progs": [list(p) for p in progs], "adv": adv, "bound": bound, "env_cost": env_cost})
@@ -74,6 +77,10 @@ def configs(ctx: Ctx) -> list[dict[str, Any]]:
         for progs in progs3[:2]:
             for adv in (TTL - 1, TTL + 1):
                 add(cap, progs, adv, 2, 1)
+    # (2b) two clock advances (see the quick tier), both orders of magnitude, capacities 2 and 3
+    for cap in (2, 3):
+        for adv2 in ([1.0, TTL - 1], [TTL - 1, 1.0], [1.0, TTL]):
+            add(cap, (["y"], ["x", "x"]), adv2, 2, 0)
     # (4) three preemptions
     for cap in (2, 3):
         for progs in progs2[:2]:
@@ -111,8 +118,9 @@ def make_setup(cfg: dict[str, Any]):
 
         for i, nonces in enumerate(cfg["progs"]):
             s.spawn(lambda i=i, nonces=nonces: worker(i, nonces), f"w{i}")
-        if cfg["adv"] is not None:
-            s.spawn(lambda: clk.advance(cfg["adv"]), "clock", env=True)
+        advs = cfg["adv"] if isinstance(cfg["adv"], list) else ([] if cfg["adv"] is None else [cfg["adv"]])
+        for j, d in enumerate(advs):
+            s.spawn(lambda d=d: clk.advance(d), f"clock{j}", env=True)
 
         def state() -> Any:
             n = len(cache._entries)
